@@ -731,9 +731,15 @@ theorem store_gen (pub : String → Bool) (outs : List String) (ys : List Val) (
   match outs, h with
   | o₁ :: o₂ :: os, _ => simp [store]
 
-theorem store_lst (pub : String → Bool) (outs : List String) (ys : List Val) (h : 2 ≤ outs.length) :
-    store pub outs (.lst ys) =
+theorem store_lst (pub : String → Bool) (outs : List String) (self : Val) (ys : List Val) (h : 2 ≤ outs.length) :
+    store pub outs (.lst self ys) =
       ((bindOutputs pub outs ys).1, afterZipLst (bindOutputs pub outs ys).2) := by
+  match outs, h with
+  | o₁ :: o₂ :: os, _ => simp only [store]
+
+theorem store_genRaise (pub : String → Bool) (outs : List String) (ys : List Val) (h : 2 ≤ outs.length) :
+    store pub outs (.genRaise ys) =
+      ((bindOutputs pub outs ys).1, afterGenRaise (bindOutputs pub outs ys).2) := by
   match outs, h with
   | o₁ :: o₂ :: os, _ => simp only [store]
 
@@ -817,9 +823,9 @@ theorem c10_tasks_edges (g : List (String × SNode)) (j : Job) (h : graph2job g 
 
 /-- example graph: `b = f(a.1, 5, a.0, a.1, k=1)` -/
 def exGraph : List (String × SNode) :=
-  [("a", ⟨some ([], []), [], ["0", "1"]⟩),
+  [("a", ⟨some ([], []), [], ["0", "1"], false⟩),
    ("b", ⟨some ([.str "input0", .int 5, .str "input1", .str "input0"], [("k", .int 1)]),
-          [("input0", .named "a" "1"), ("input1", .dflt "a")], []⟩)]
+          [("input0", .named "a" "1"), ("input1", .dflt "a")], [], false⟩)]
 
 example : (graph2job exGraph).toOption.map (·.edges) =
     some [⟨⟨"a", "1"⟩, "b", some 0, none⟩, ⟨⟨"a", "1"⟩, "b", some 3, none⟩, ⟨⟨"a", "0"⟩, "b", some 2, none⟩] := by decide
@@ -964,7 +970,7 @@ theorem c10_fluent_establishes_once (args : List Val) (kwargs : List (String × 
   exact (c10_fluent_inputs_once args nInputs numOutputs).2 hle x hx
 
 example : InputsOccurOnce ⟨some ((fluentNode [.int 3, .str "input1"] 3 1).args, []),
-    [("input0", .dflt "a"), ("input1", .dflt "a"), ("input2", .named "b" "10")], ["0"]⟩ := by decide
+    [("input0", .dflt "a"), ("input1", .dflt "a"), ("input2", .named "b" "10")], ["0"], false⟩ := by decide
 
 example : (fluentNode [.int 3, .str "input1"] 3 1).args = [.int 3, .str "input1", .str "input0", .str "input2"] := by decide
 
@@ -1066,7 +1072,7 @@ direction.  Missing for full strength: N = 1 (`c10_count_mismatch_full_fails`, s
 theorem c10_count_mismatch_partial (tid : String) (t : Task) (edges : List Edge) (mem : Ds → Option Val)
     (pub : String → Bool) (ys : List Val) (hN : 2 ≤ t.outputSchema.length) (hne : ys.length ≠ t.outputSchema.length) :
     (run tid t edges mem pub (.gen ys)).err.isSome = true ∧
-    (run tid t edges mem pub (.lst ys)).err.isSome = true ∧
+    (∀ self, (run tid t edges mem pub (.lst self ys)).err.isSome = true) ∧
     ((run tid t edges mem pub (.gen ys)).received.isSome = true → AllPicklable ys →
       (run tid t edges mem pub (.gen ys)).err =
         some (if ys.length < t.outputSchema.length then .fewerResults else .moreResults)) := by
@@ -1075,9 +1081,10 @@ theorem c10_count_mismatch_partial (tid : String) (t : Task) (edges : List Edge)
   · rcases run_cases tid t edges mem pub (.gen ys) with ⟨e, h⟩ | ⟨recv, h⟩
     · rw [h]; rfl
     · rw [h, store_gen pub _ ys hN]; exact hmis
-  · rcases run_cases tid t edges mem pub (.lst ys) with ⟨e, h⟩ | ⟨recv, h⟩
+  · intro self
+    rcases run_cases tid t edges mem pub (.lst self ys) with ⟨e, h⟩ | ⟨recv, h⟩
     · rw [h]; rfl
-    · rw [h, store_lst pub _ ys hN]
+    · rw [h, store_lst pub _ self ys hN]
       simp only
       cases hb : (bindOutputs pub t.outputSchema ys).2 with
       | none => rfl
@@ -1148,8 +1155,14 @@ theorem c10_completion_is_last (tid : String) (t : Task) (edges : List Edge) (me
           rw [store_gen pub _ ys (by simp)] at herr ⊢
           obtain ⟨hl, hz⟩ := bindOutputs_ok pub _ ys herr
           rw [hz]; exact hfilter ys hl
-        | lst ys =>
-          rw [store_lst pub _ ys (by simp)] at herr
+        | genRaise ys =>
+          rw [store_genRaise pub _ ys (by simp)] at herr
+          simp only at herr
+          cases hb : (bindOutputs pub (o₁ :: o₂ :: os) ys).2 with
+          | none => simp [hb, afterGenRaise] at herr
+          | some e => cases e <;> simp [hb, afterGenRaise] at herr
+        | lst self ys =>
+          rw [store_lst pub _ self ys (by simp)] at herr
           simp only at herr
           cases hb : (bindOutputs pub (o₁ :: o₂ :: os) ys).2 <;> simp [hb, afterZipLst] at herr
     refine ⟨hpubl, ?_⟩
@@ -1187,5 +1200,295 @@ theorem c10_completion_is_last (tid : String) (t : Task) (edges : List Edge) (me
 
 example : published ((run "g" ⟨[], [], [], ["b", "a", "10"]⟩ [] (fun _ => none) (fun _ => true) (.gen [.tok "x", .tok "y", .tok "z"])).handled, none)
       = ["b", "a", "10"] ∧ isLastOutputOf ["b", "a", "10"] "10" = some true := by decide
+
+
+/-! ## Strengthenings after the audit (findings 1, 5, 6, 7) -/
+
+namespace Aux
+
+theorem published_congr (hs : List Handled) (e e' : Option Err)
+    (h : e = some .unpicklable ↔ e' = some .unpicklable) : published (hs, e) = published (hs, e') := by
+  have key : ∀ e : Option Err, published (hs, e) =
+      if e = some .unpicklable then published (hs, some .unpicklable) else published (hs, none) := by
+    intro e
+    cases e with
+    | none => simp
+    | some x => cases x <;> simp [published]
+  rw [key e, key e']
+  by_cases he : e = some .unpicklable
+  · simp [he, h.mp he]
+  · have : ¬ e' = some .unpicklable := fun x => he (h.mpr x)
+    simp [he, this]
+
+theorem lastLookup_zip_nodup' (outs : List String) (ys : List Val) (hn : outs.Nodup)
+    (k : Nat) (hk : k < outs.length) (hk' : k < ys.length) :
+    lastLookup outs[k] (List.zip outs ys) = some ys[k] := by
+  induction outs generalizing ys k with
+  | nil => simp at hk
+  | cons o os ih =>
+    cases ys with
+    | nil => simp at hk'
+    | cons y ys =>
+      simp only [List.nodup_cons] at hn
+      cases k with
+      | zero =>
+        simp only [List.getElem_cons_zero, List.zip_cons_cons, lastLookup]
+        cases hl : lastLookup o (List.zip os ys) with
+        | none => simp
+        | some w => exact absurd (List.of_mem_zip (lastLookup_mem _ _ _ hl)).1 hn.1
+      | succ k =>
+        simp only [List.getElem_cons_succ, List.zip_cons_cons, lastLookup]
+        rw [ih ys hn.2 k (by simpa using hk) (by simpa using hk')]
+
+theorem filter_zipWith_publish (pub : String → Bool) (outs : List String) (ys : List Val) :
+    ((List.zipWith (fun o y => (⟨o, y, pub o⟩ : Handled)) outs ys).filter (·.publish)).map (·.output) =
+      (outs.take ys.length).filter (fun o => pub o) := by
+  induction outs generalizing ys with
+  | nil => simp
+  | cons o os ih =>
+    cases ys with
+    | nil => simp
+    | cons y ys =>
+      simp only [List.zipWith_cons_cons, List.length_cons, List.take_succ_cons, List.filter_cons]
+      cases hpo : pub o <;> simp [ih ys]
+
+theorem bind_unpicklable_nonempty (pub : String → Bool) (outs : List String) (ys : List Val)
+    (h : (bindOutputs pub outs ys).2 = some .unpicklable) : (bindOutputs pub outs ys).1 ≠ [] := by
+  cases outs with
+  | nil => cases ys <;> simp [bindOutputs] at h
+  | cons o os =>
+    cases ys with
+    | nil => simp [bindOutputs] at h
+    | cons y ys =>
+      simp only [bindOutputs]
+      split <;> simp
+
+/-- the `DatasetPublished` notices of a zip over declared outputs and results: the outputs to be published among
+a PREFIX of the declaration, whatever ended the loop -/
+theorem published_bind (pub : String → Bool) (outs : List String) (ys : List Val) :
+    ∃ n, n ≤ outs.length ∧
+      published (bindOutputs pub outs ys) = (outs.take n).filter (fun o => pub o) := by
+  induction outs generalizing ys with
+  | nil => exact ⟨0, by simp, by cases ys <;> simp [bindOutputs, published]⟩
+  | cons o os ih =>
+    cases ys with
+    | nil => exact ⟨0, by simp, by simp [bindOutputs, published]⟩
+    | cons y ys =>
+      by_cases hc : (pub o && !picklable y) = true
+      · refine ⟨0, by simp, ?_⟩
+        simp [bindOutputs, hc, published]
+      · obtain ⟨n, hn, hpub⟩ := ih ys
+        refine ⟨n + 1, by simp; omega, ?_⟩
+        have hb : bindOutputs pub (o :: os) (y :: ys) =
+            (⟨o, y, pub o⟩ :: (bindOutputs pub os ys).1, (bindOutputs pub os ys).2) := by
+          simp only [bindOutputs, hc, Bool.false_eq_true, ↓reduceIte]
+        rw [hb]
+        have hrest : published (⟨o, y, pub o⟩ :: (bindOutputs pub os ys).1, (bindOutputs pub os ys).2) =
+            (if pub o then [o] else []) ++ published (bindOutputs pub os ys) := by
+          unfold published
+          by_cases hu : (bindOutputs pub os ys).2 = some .unpicklable
+          · have hne := bind_unpicklable_nonempty pub os ys hu
+            simp only [hu]
+            rw [List.dropLast_cons_of_ne_nil hne]
+            cases hp : pub o <;> simp
+          · have h1 : ∀ (l : List Handled), (match (bindOutputs pub os ys).2 with
+                  | some .unpicklable => l.dropLast | _ => l) = l := by
+              intro l; split
+              · rename_i h; exact absurd h hu
+              · rfl
+            simp only []
+            cases hp : pub o <;> simp
+        rw [hrest, hpub]
+        cases hp : pub o <;> simp [hp]
+
+theorem afterZipLst_unpick (e : Option Err) : afterZipLst e = some .unpicklable ↔ e = some .unpicklable := by
+  cases e with
+  | none => simp [afterZipLst]
+  | some x => cases x <;> simp [afterZipLst]
+
+theorem afterGenRaise_unpick (e : Option Err) : afterGenRaise e = some .unpicklable ↔ e = some .unpicklable := by
+  cases e with
+  | none => simp [afterGenRaise]
+  | some x => cases x <;> simp [afterGenRaise]
+
+theorem published_store (pub : String → Bool) (outs : List String) (res : Result) :
+    ∃ n, n ≤ outs.length ∧ published (store pub outs res) = (outs.take n).filter (fun o => pub o) := by
+  have h0 : ∀ e : Option Err, ∃ n, n ≤ outs.length ∧ published (([] : List Handled), e) = (outs.take n).filter (fun o => pub o) := by
+    intro e; refine ⟨0, by simp, ?_⟩
+    unfold published; split <;> simp
+  have hsingle : ∀ (o : String) (v : Val), ∃ n, n ≤ [o].length ∧
+      published (([⟨o, v, pub o⟩] : List Handled), if (pub o && !picklable v) = true then some Err.unpicklable else none) =
+        ([o].take n).filter (fun o => pub o) := by
+    intro o v
+    by_cases hc : (pub o && !picklable v) = true
+    · exact ⟨0, by simp, by simp [hc, published]⟩
+    · refine ⟨1, by simp, ?_⟩
+      simp only [hc, Bool.false_eq_true, ↓reduceIte, published]
+      cases hp : pub o <;> simp [hp]
+  match outs, res with
+  | _, .raises => simpa [store] using h0 (some .callableRaised)
+  | [], .value _ => simpa [store] using h0 (some .noOutputs)
+  | [], .gen _ => simpa [store] using h0 (some .noOutputs)
+  | [], .genRaise _ => simpa [store] using h0 (some .noOutputs)
+  | [], .lst _ _ => simpa [store] using h0 (some .noOutputs)
+  | [o], .value v => simpa [store, Result.asVal] using hsingle o v
+  | [o], .gen _ => simpa [store, Result.asVal] using hsingle o (.obj "generator")
+  | [o], .genRaise _ => simpa [store, Result.asVal] using hsingle o (.obj "generator")
+  | [o], .lst self _ => simpa [store, Result.asVal] using hsingle o self
+  | o₁ :: o₂ :: os, .value _ => simpa [store] using h0 (some .notIterable)
+  | o₁ :: o₂ :: os, .gen ys =>
+    rw [store_gen pub _ ys (by simp)]
+    exact published_bind pub _ ys
+  | o₁ :: o₂ :: os, .genRaise ys =>
+    rw [store_genRaise pub _ ys (by simp)]
+    rw [published_congr _ _ (bindOutputs pub (o₁ :: o₂ :: os) ys).2 (afterGenRaise_unpick _)]
+    exact published_bind pub _ ys
+  | o₁ :: o₂ :: os, .lst self ys =>
+    rw [store_lst pub _ self ys (by simp)]
+    rw [published_congr _ _ (bindOutputs pub (o₁ :: o₂ :: os) ys).2 (afterZipLst_unpick _)]
+    exact published_bind pub _ ys
+
+end Aux
+
+/-- **Publication order, for every run** (success or failure, generator, list, scalar, raising callable; any publish
+set): the `DatasetPublished` notices of a run are exactly the to-be-published outputs among a PREFIX of the declared
+outputs, in declaration order. -/
+theorem c10_published_prefix (tid : String) (t : Task) (edges : List Edge) (mem : Ds → Option Val)
+    (pub : String → Bool) (res : Result) :
+    ∃ n, n ≤ t.outputSchema.length ∧
+      published ((run tid t edges mem pub res).handled, (run tid t edges mem pub res).err) =
+        (t.outputSchema.take n).filter (fun o => pub o) := by
+  rcases run_cases tid t edges mem pub res with ⟨e, h⟩ | ⟨recv, h⟩
+  · rw [h]
+    refine ⟨0, by simp, ?_⟩
+    simp only [published]; split <;> simp
+  · rw [h]; exact published_store pub t.outputSchema res
+
+/-- **Completion is never assumed early — also in runs that fail.** Whenever the notice for the output that
+`is_last_output_of` takes as completion goes out, every declared output that was to be published has been published
+before it, in declaration order. No hypothesis on the result or on the error: this covers the list of the right length
+(all N outputs published, then `TypeError` from `assert_iter_empty`) and the generator that raises after its N-th
+value, where the controller sees the completion notice first and the `TaskFailure` afterwards. -/
+theorem c10_completion_after_all (tid : String) (t : Task) (edges : List Edge) (mem : Ds → Option Val)
+    (pub : String → Bool) (res : Result) (hnd : t.outputSchema.Nodup) (o : String)
+    (hlast : isLastOutputOf t.outputSchema o = some true)
+    (hmem : o ∈ published ((run tid t edges mem pub res).handled, (run tid t edges mem pub res).err)) :
+    published ((run tid t edges mem pub res).handled, (run tid t edges mem pub res).err) =
+      t.outputSchema.filter (fun o => pub o) := by
+  obtain ⟨n, hn, hp⟩ := c10_published_prefix tid t edges mem pub res
+  rw [hp] at hmem ⊢
+  have hot : o ∈ t.outputSchema.take n := (List.mem_filter.mp hmem).1
+  unfold isLastOutputOf at hlast
+  cases hgl : t.outputSchema.getLast? with
+  | none => simp [hgl] at hlast
+  | some l =>
+    simp only [hgl, Option.some.injEq, decide_eq_true_eq] at hlast
+    subst hlast
+    have hlen : 0 < t.outputSchema.length := by
+      cases hts : t.outputSchema with
+      | nil => simp [hts] at hgl
+      | cons a as => simp
+    have hlastidx : t.outputSchema[t.outputSchema.length - 1]'(by omega) = l := by
+      rw [List.getLast?_eq_getElem?] at hgl
+      exact (List.getElem?_eq_some_iff.mp hgl).2
+    obtain ⟨i, hi, hget⟩ := List.getElem_of_mem hot
+    simp only [List.length_take] at hi
+    rw [List.getElem_take] at hget
+    have := (List.getElem_inj hnd).mp (hget.trans hlastidx.symm)
+    have hnn : n = t.outputSchema.length := by omega
+    rw [hnn, List.take_length]
+
+example : published ((run "g" ⟨[], [], [], ["a", "b"]⟩ [] (fun _ => none) (fun _ => true)
+      (.lst (.data "[x, y]") [.tok "x", .tok "y"])).handled, some .notIterator) = ["a", "b"] ∧
+    (run "g" ⟨[], [], [], ["a", "b"]⟩ [] (fun _ => none) (fun _ => true)
+      (.lst (.data "[x, y]") [.tok "x", .tok "y"])).err = some .notIterator := by decide
+
+/-- **A generator that raises after some yields** (N ≥ 2 declared outputs, `m` values yielded before the exception):
+the values yielded so far are bound, in order, to the first `min m N` declared outputs and those among them that were
+to be published are published; the run always ends in an error — the generator's own exception when `m ≤ N` (also
+when `m = N`: `zip(strict)` asks the generator once more), "more results" when `m > N`; and the completion output is
+published only if `m ≥ N`. -/
+theorem c10_partial_publication (tid : String) (t : Task) (edges : List Edge) (mem : Ds → Option Val)
+    (pub : String → Bool) (ys : List Val) (hN : 2 ≤ t.outputSchema.length) (hp : AllPicklable ys)
+    (hrecv : (run tid t edges mem pub (.genRaise ys)).received.isSome = true) :
+    (run tid t edges mem pub (.genRaise ys)).err =
+      some (if t.outputSchema.length < ys.length then .moreResults else .callableRaised) ∧
+    (run tid t edges mem pub (.genRaise ys)).handled =
+      List.zipWith (fun o y => ⟨o, y, pub o⟩) t.outputSchema ys ∧
+    published ((run tid t edges mem pub (.genRaise ys)).handled, (run tid t edges mem pub (.genRaise ys)).err) =
+      (t.outputSchema.take ys.length).filter (fun o => pub o) ∧
+    (t.outputSchema.Nodup → ∀ k (hk : k < t.outputSchema.length) (hk' : k < ys.length),
+      memAfter tid (run tid t edges mem pub (.genRaise ys)).handled mem ⟨tid, t.outputSchema[k]⟩ = some ys[k]) := by
+  obtain ⟨hh, he, _⟩ := run_of_received tid t edges mem pub (.genRaise ys) hrecv
+  obtain ⟨hb1, hb2⟩ := bindOutputs_picklable pub t.outputSchema ys hp
+  rw [hh, he, store_genRaise pub _ ys hN, hb1, hb2]
+  have herr : afterGenRaise (if ys.length = t.outputSchema.length then none
+        else if ys.length < t.outputSchema.length then some Err.fewerResults else some Err.moreResults) =
+      some (if t.outputSchema.length < ys.length then Err.moreResults else Err.callableRaised) := by
+    by_cases h1 : ys.length = t.outputSchema.length
+    · simp [h1, afterGenRaise]
+    · by_cases h2 : ys.length < t.outputSchema.length
+      · have : ¬ t.outputSchema.length < ys.length := by omega
+        simp [h1, h2, this, afterGenRaise]
+      · have : t.outputSchema.length < ys.length := by omega
+        simp [h1, h2, this, afterGenRaise]
+  refine ⟨herr, rfl, ?_, ?_⟩
+  · simp only
+    rw [herr]
+    rw [published_congr _ _ none (by split <;> simp)]
+    simp only [published]
+    exact filter_zipWith_publish pub _ ys
+  · intro hnd k hk hk'
+    simp only [memAfter, ↓reduceIte, handled_pairs]
+    rw [lastLookup_zip_nodup' _ ys hnd k hk hk']
+
+example : (run "g" ⟨[], [], [], ["a", "b", "c"]⟩ [] (fun _ => none) (fun o => o != "a") (.genRaise [.tok "x", .tok "y"])).err
+      = some .callableRaised ∧
+    published ((run "g" ⟨[], [], [], ["a", "b", "c"]⟩ [] (fun _ => none) (fun o => o != "a") (.genRaise [.tok "x", .tok "y"])).handled,
+      some .callableRaised) = ["b"] := by decide
+
+/-- **One declared output: the callable's result IS the value** — a scalar, a string, a list or tuple, an ndarray
+(`Result.lst`: the object itself is stored, it is not iterated): it is stored locally under the one output, the run
+succeeds exactly when the output is not to be published or the value can be pickled, and in that case the value is in
+the worker's memory afterwards. (For a generator object, which cannot be pickled, this is the known finding
+`c10_yield_binding_full_fails`.) -/
+theorem c10_single_output_value (tid : String) (t : Task) (edges : List Edge) (mem : Ds → Option Val)
+    (pub : String → Bool) (res : Result) (o : String) (hout : t.outputSchema = [o]) (hres : res ≠ .raises)
+    (hrecv : (run tid t edges mem pub res).received.isSome = true) :
+    (run tid t edges mem pub res).handled = [⟨o, res.asVal, pub o⟩] ∧
+    ((run tid t edges mem pub res).err = none ↔ (pub o = false ∨ picklable res.asVal = true)) ∧
+    memAfter tid (run tid t edges mem pub res).handled mem ⟨tid, o⟩ = some res.asVal := by
+  obtain ⟨hh, he, _⟩ := run_of_received tid t edges mem pub res hrecv
+  rw [hh, he, hout]
+  have hs : store pub [o] res = ([⟨o, res.asVal, pub o⟩], if (pub o && !picklable res.asVal) = true then some .unpicklable else none) := by
+    cases res with
+    | raises => exact absurd rfl hres
+    | _ => rfl
+  rw [hs]
+  refine ⟨rfl, ?_, ?_⟩
+  · cases hp : pub o <;> cases hq : picklable res.asVal <;> simp
+  · simp [memAfter, lastLookup]
+
+example : (run "t" ⟨[], [], [], ["0"]⟩ [] (fun _ => none) (fun _ => true) (.lst (.data "[x, y]") [.tok "x", .tok "y"])).err = none ∧
+    (run "t" ⟨[], [], [], ["0"]⟩ [] (fun _ => none) (fun _ => true) (.lst (.data "[x, y]") [.tok "x", .tok "y"])).handled
+      = [⟨"0", .data "[x, y]", true⟩] := by decide
+
+/-- **Static arguments arrive unchanged** (corollary of `c10_binding`): every declared argument that is not a string
+equal to one of the node's input names — numbers, `None`, lists, dicts, arrays (`Val.data`), strings such as
+`"input7"` on a node with fewer inputs — is received as declared. A string equal to an input name IS, by the payload
+format `(func, args, kwargs)`, the reference to that input (`c10_string_naming_input_is_reference`). -/
+theorem c10_statics_unchanged (inputs : List (String × InRef)) (mem : Ds → Option Val) (a : Val)
+    (h : ∀ s, a = .str s → inputs.lookup s = none) : subst inputs mem a = a := by
+  cases a with
+  | str s => simp [subst, h s rfl]
+  | _ => rfl
+
+/-- the format cannot express a static string equal to an input name: it is replaced by the upstream value -/
+theorem c10_string_naming_input_is_reference :
+    (graph2job [("a", ⟨some ([], []), [], [], false⟩),
+                ("b", ⟨some ([.str "x", .str "y"], []), [("x", .dflt "a")], [], false⟩)]).toOption.bind
+      (fun j => (j.tasks.lookup "b").map (fun t =>
+        (run "b" t j.edges (fun ds => if ds = ⟨"a", "0"⟩ then some (.tok "v") else none) (fun _ => true) (.value .none)).received)) =
+    some (some ([.tok "v", .str "y"], [])) := by decide
 
 end EkwVerif.Runner
